@@ -108,8 +108,8 @@ class Check(PropertyCheck):
             "peer data/EOF/reset, drain failure, write_eof failure, clock advance, cancellation of a handler task, client "
             "EOF/reset}; base scenarios with a cancellation / client disconnect injected after every step, then random "
             "scripts. distinct = distinct script; non-trivial = at least one upstream connection attempt.")
-    budget = {"quick": 700, "thorough": 12000}
-    time_budget = {"quick": 35, "thorough": 500}
+    budget = {"quick": 500, "thorough": 40000}
+    time_budget = {"quick": 25, "thorough": 500}
     fingerprints = ["mitmproxy.proxy.server:ConnectionHandler.handle_client",
                     "mitmproxy.proxy.server:ConnectionHandler.open_connection",
                     "mitmproxy.proxy.server:ConnectionHandler.handle_connection",
@@ -124,10 +124,6 @@ class Check(PropertyCheck):
                     "mitmproxy.proxy.mode_servers:ProxyConnectionHandler.handle_hook"]
     trusted_base = ["asyncio Task/Semaphore/wait/done-callback semantics (exercised on a virtual clock; three facts assumed, see level_note)"]
     parallel = False
-
-    def setup(self, tier):
-        if tier == "thorough":
-            type(self).parallel = True
 
     # ---- translator ---------------------------------------------------------------------------
     def translate(self):
